@@ -286,6 +286,9 @@ pub struct SourceInner {
     pub calls: Vec<SourceCall>,
     pub next_clone: u32,
     pub used_sessions: Vec<u16>,
+    /// `State::inc()` (what a real source uses to move to its next serial)
+    /// disagreed with serial + 1 mod 2^32 in the same session.
+    pub state_inc_broken: Option<String>,
 }
 
 pub struct VersionedSource {
@@ -324,6 +327,7 @@ impl VersionedSource {
                 calls: Vec::new(),
                 next_clone: 0,
                 used_sessions: vec![session],
+                state_inc_broken: None,
             })),
             ctx: ctx.clone(),
             clone_id: 0,
@@ -338,7 +342,18 @@ impl VersionedSource {
     /// Installs a new data set under the next serial.
     pub fn update(&self, set: DataSet) -> StateKey {
         let mut i = self.inner.lock().unwrap();
-        i.serial = i.serial.wrapping_add(1);
+        // the next state the way an application computes it, checked against
+        // RFC 1982 addition done by hand
+        let mut lib = mk_state((i.session, i.serial));
+        lib.inc();
+        let want = (i.session, i.serial.wrapping_add(1));
+        if state_key(lib) != want && i.state_inc_broken.is_none() {
+            i.state_inc_broken = Some(format!(
+                "State::inc() on {:04x}/#{} gave {:04x}/#{}, expected {:04x}/#{}",
+                i.session, i.serial, lib.session(), u32::from(lib.serial()), want.0, want.1
+            ));
+        }
+        i.serial = want.1;
         i.current = Arc::new(set);
         let key = (i.session, i.serial);
         let cur = i.current.clone();
@@ -571,6 +586,9 @@ pub struct TargetInner {
     /// library's `Eq`) to the looked-up item exists but the hash lookup
     /// misses it, or the other way round.
     pub identity_law_broken: Option<String>,
+    /// First update for which the library's `PayloadUpdate for Vec` collected
+    /// something else than what was pushed.
+    pub lib_vec_mismatch: Option<String>,
 }
 
 impl TargetInner {
@@ -613,6 +631,9 @@ pub struct ModelUpdate {
     reset: bool,
     items: Vec<(bool, Key, Vec<u32>)>,
     raw: Vec<(bool, Payload)>,
+    /// The same update collected by the library's own `PayloadUpdate`
+    /// implementation (`Vec<(Action, Payload)>`), as a simple target would.
+    lib_vec: Vec<(Action, Payload)>,
     target: Arc<Mutex<TargetInner>>,
 }
 
@@ -630,6 +651,7 @@ impl rpki::rtr::client::PayloadUpdate for ModelUpdate {
         }
         let (k, v) = from_payload(&payload);
         self.items.push((action.is_announce(), k, v));
+        <Vec<(Action, Payload)> as rpki::rtr::client::PayloadUpdate>::push_update(&mut self.lib_vec, action, payload.clone())?;
         self.raw.push((action.is_announce(), payload));
         Ok(())
     }
@@ -640,7 +662,7 @@ impl PayloadTarget for ModelTarget {
 
     fn start(&mut self, reset: bool) -> Self::Update {
         self.0.lock().unwrap().started += 1;
-        ModelUpdate { reset, items: Vec::new(), raw: Vec::new(), target: self.0.clone() }
+        ModelUpdate { reset, items: Vec::new(), raw: Vec::new(), lib_vec: Vec::new(), target: self.0.clone() }
     }
 
     fn apply(&mut self, update: Self::Update, timing: Timing) -> Result<(), PayloadError> {
@@ -650,6 +672,17 @@ impl PayloadTarget for ModelTarget {
             if t.ctx.as_ref().map(|c| c.choose(n) == n - 1).unwrap_or(false) {
                 t.rejected_applies += 1;
                 return Err(PayloadError::Internal);
+            }
+        }
+        // a target that collects its update in the library's own `PayloadUpdate
+        // for Vec` and folds that list must end up with the same data
+        let mut via_vec: DataSet = if update.reset { DataSet::new() } else { t.data.clone() };
+        for (action, p) in &update.lib_vec {
+            let (k, v) = from_payload(p);
+            if action.is_announce() {
+                via_vec.insert(k, v);
+            } else {
+                via_vec.remove(&k);
             }
         }
         if update.reset {
@@ -695,6 +728,12 @@ impl PayloadTarget for ModelTarget {
             } else if t.data.remove(k).is_none() {
                 unk += 1;
             }
+        }
+        if via_vec != t.data && t.lib_vec_mismatch.is_none() {
+            t.lib_vec_mismatch = Some(format!(
+                "folding the list collected by the library's PayloadUpdate for Vec ({} entries) gives {} items, folding what was pushed ({} entries) gives {}",
+                update.lib_vec.len(), via_vec.len(), update.items.len(), t.data.len()
+            ));
         }
         t.applied.push(AppliedUpdate {
             reset: update.reset,
